@@ -132,7 +132,7 @@ class Gen:
             f = {"t": t, "kind": kind, "len": self.width(kind, proto), "ent": False, "pen": []}
             if proto == "ipfix" and enterprise and r.random() < 0.12:
                 f["ent"] = True
-                f["pen"] = b32(r.randrange(1, 2 ** 32))
+                f["pen"] = b32(r.choice([0, 1, 9, 2 ** 32 - 1]) if r.random() < 0.3 else r.randrange(1, 2 ** 32))
                 f["kind"] = "Vec"
                 f["len"] = r.choice([1, 2, 4, 8, 65535, 6])
             out.append(f)
@@ -590,6 +590,15 @@ def rounds_session(g):
     if pre:
         ops.append(call("c", pre))
     ops.append({"op": "round", "kind": "filter", "a": "a", "b": "b", "c": "c"})
+    # widen the set again: from now on parser a must behave as one that allows everything (the set is read at every call)
+    ops.append({"op": "allow", "p": "a", "allowed": everything})
+    ops.append({"op": "round", "kind": "mark", "a": "", "b": "", "c": ""})
+    more = packet_sequence(g, r.choice([1, 2, 3]), ex9, ex10)
+    buf2 = [x for _, pk in more for x in pk]
+    ops.append(call("a", buf2))
+    ops.append(call("b", buf2))
+    if pre and k == len(pks):
+        ops.append({"op": "round", "kind": "twinsout", "a": "a", "b": "b", "c": ""})
     # ---- trunc (C14)
     ex9, ex10 = Exporter(g, "v9"), Exporter(g, "ipfix")
     hist = packet_sequence(g, 3, ex9, ex10)
